@@ -1,6 +1,8 @@
 import Driver.Common
 import Rpki.Model.Manifest
 import Rpki.Model.Crl
+import Rpki.Model.Roa
+import Rpki.Gen.Consts
 import Driver.C14
 namespace Driver.C05
 open Driver
@@ -67,7 +69,146 @@ def handleCrl (entries probes impl : String) : Verdict :=
         | _ => if impl = "panic" then some "panicked" else some "unreadable result" }
   | _, _ => badOp "crlx args"
 
+
+/-! ### ROA / ASPA eContent codec ops (`Model/Roa.lean`) -/
+
+def parseAddrs (shift : Nat) (s : String) : Option (List Rpki.Roa.Addr) :=
+  if s = "-" then some [] else
+  (s.splitOn ",").mapM fun it =>
+    match it.splitOn "/" with
+    | [b, l] =>
+      let (l, ml) := match l.splitOn "-" with
+        | [l, m] => (l, some m)
+        | _ => (l, none)
+      match b.toNat?, l.toNat?, ml.map String.toNat? with
+      | some b, some l, none => some ⟨Rpki.IpDer.toMin (b * 2 ^ shift) l, l, none⟩
+      | some b, some l, some (some m) => some ⟨Rpki.IpDer.toMin (b * 2 ^ shift) l, l, some m⟩
+      | _, _, _ => none
+    | _ => none
+
+def showAddrs : Option (List Rpki.Roa.Addr) → String
+  | none => "panic"
+  | some [] => "-"
+  | some l => ",".intercalate (l.map fun a => s!"{a.addr}/{a.len}" ++ (match a.maxLen with | some m => s!"-{m}" | none => ""))
+
+def showNats : Option (List Nat) → String
+  | none => "panic"
+  | some [] => "-"
+  | some l => ",".intercalate (l.map toString)
+
+def parseNats (s : String) : Option (List Nat) :=
+  if s = "-" then some [] else (s.splitOn ",").mapM String.toNat?
+
+def insertSorted (x : Nat) : List Nat → List Nat
+  | [] => [x]
+  | y :: ys => if x ≤ y then x :: y :: ys else y :: insertSorted x ys
+def sortNats (l : List Nat) : List Nat := l.foldr insertSorted []
+def strictlyIncreasing : List Nat → Bool
+  | a :: b :: rest => a < b && strictlyIncreasing (b :: rest)
+  | _ => true
+
+/-- what a successfully decoded ROA promises about every address of a family of width `W` -/
+def addrsSound (W : Nat) (l : List Rpki.Roa.Addr) : Bool :=
+  l.all fun a => Rpki.Roa.addrOk W a && Rpki.IpDer.toMin a.addr a.len == a.addr && a.addr < 2 ^ 128 &&
+    (W == 128 || a.addr % 2 ^ 96 == 0)
+
+def handleCodec (toks : List String) (impl : String) : Option Verdict :=
+  let hexOut (b : List Nat) := toHex (b.map UInt8.ofNat)
+  match toks with
+  | ["roax", asid, v4, v6] =>
+    some <| match asid.toNat?, parseAddrs 96 v4, parseAddrs 0 v6 with
+    | some asid, some a4, some a6 =>
+      let c : Rpki.Roa.Content := ⟨asid, Rpki.Roa.encodeAddrs a4, Rpki.Roa.encodeAddrs a6⟩
+      let conforming := a4.all (Rpki.Roa.addrOk 32) && a6.all (Rpki.Roa.addrOk 128)
+      { model := some s!"{hexOut (Rpki.Roa.encodeContent c)} {showAddrs (Rpki.Roa.iter c.v4)} {showAddrs (Rpki.Roa.iter c.v6)}",
+        oracle :=
+          if impl.startsWith "panic" then (if conforming then some "building or encoding a ROA from profile-conforming addresses panicked" else none)
+          else match impl.splitOn " " with
+          | [h, i4, i6] =>
+            if i4 = "panic" ∨ i6 = "panic" then some "iterating the addresses of a built ROA panicked"
+            else if i4 ≠ showAddrs (some a4) ∨ i6 ≠ showAddrs (some a6) then some "the built ROA does not list the addresses given to the builder"
+            else if !conforming then none
+            else match hexB h with
+            | none => some "unreadable"
+            | some der =>
+              match Rpki.Roa.decodeContent der with
+              | none => some "the eContent written for profile-conforming addresses is not accepted by the decoder"
+              | some d => if d = c then none else some "the eContent decodes to other values than were built"
+          | _ => some "unreadable result" }
+    | _, _, _ => badOp "roax args"
+  | ["road", h] =>
+    some <| match hexB h with
+    | none => badOp "hex"
+    | some der =>
+      let m := match Rpki.Roa.decodeContent der with
+        | none => "err"
+        | some c => s!"ok {c.asId} {showAddrs (Rpki.Roa.iter c.v4)} {showAddrs (Rpki.Roa.iter c.v6)}"
+      { model := some m,
+        oracle :=
+          if impl = "err" then none
+          else if impl.startsWith "panic" then some "decoding ROA eContent panicked"
+          else match impl.splitOn " " with
+          | ["ok", a, i4, i6] =>
+            if i4 = "panic" ∨ i6 = "panic" then some "iterating the addresses of a decoded ROA panicked"
+            else match a.toNat?, parseAddrs 0 i4, parseAddrs 0 i6 with
+            | some a, some l4, some l6 =>
+              if a ≥ 2 ^ 32 then some "AS number out of range"
+              else if !(addrsSound 32 l4 && addrsSound 128 l6) then
+                some "a decoded ROA lists an address whose length or maxLength is outside its family, or with host bits set"
+              else none
+            | _, _, _ => some "unreadable result"
+          | _ => some "unreadable result" }
+  | ["aspax", cust, provs] =>
+    some <| match cust.toNat?, parseNats provs with
+    | some cust, some ps =>
+      let sorted := sortNats ps
+      let dup := !strictlyIncreasing sorted
+      let cap := Rpki.Roa.encodeProviders sorted
+      let conforming := !dup && !sorted.isEmpty && !sorted.contains cust && sorted.length ≤ Rpki.Consts.aspaObjMaxLen
+      { model := some (if dup then "dup" else s!"{hexOut (Rpki.Roa.encodeAspa cust cap)} {showNats (Rpki.Roa.iterProviders cap)} {sorted.length}"),
+        oracle :=
+          if impl.startsWith "panic" then (if conforming then some "building an ASPA from conforming inputs panicked" else none)
+          else if impl = "dup" then (if dup then none else some "the builder reports a duplicate where there is none")
+          else match impl.splitOn " " with
+          | [h, it, n] =>
+            if dup then some "the builder accepted a duplicate provider"
+            else if it = "panic" then some "iterating the providers of a built ASPA panicked"
+            else if it ≠ showNats (some sorted) ∨ n.toNat? ≠ some sorted.length then some "the built ASPA does not list the providers given to the builder, in order"
+            else if !conforming then none
+            else match hexB h with
+            | none => some "unreadable"
+            | some der =>
+              if Rpki.Roa.decodeAspa Rpki.Consts.aspaObjMaxLen der = some ⟨cust, cap, sorted.length⟩ then none
+              else some "the ASPA eContent written for conforming inputs does not decode to the values built"
+          | _ => some "unreadable result" }
+    | _, _ => badOp "aspax args"
+  | ["aspad", h] =>
+    some <| match hexB h with
+    | none => badOp "hex"
+    | some der =>
+      let m := match Rpki.Roa.decodeAspa Rpki.Consts.aspaObjMaxLen der with
+        | none => "err"
+        | some a => s!"ok {a.customer} {showNats (Rpki.Roa.iterProviders a.providers)} {a.count}"
+      { model := some m,
+        oracle :=
+          if impl = "err" then none
+          else if impl.startsWith "panic" then some "decoding ASPA eContent panicked"
+          else match impl.splitOn " " with
+          | ["ok", c, it, n] =>
+            if it = "panic" then some "iterating the providers of a decoded ASPA panicked"
+            else match c.toNat?, parseNats it, n.toNat? with
+            | some c, some ps, some n =>
+              if ps.isEmpty ∨ !strictlyIncreasing ps ∨ ps.contains c ∨ ps.length ≠ n ∨ n > 16380 ∨ ps.any (· ≥ 2 ^ 32) then
+                some "a decoded ASPA has an empty, unordered, duplicate-carrying, self-referencing or oversized provider set, or a wrong len()"
+              else none
+            | _, _, _ => some "unreadable result"
+          | _ => some "unreadable result" }
+  | _ => none
+
 def handle (toks : List String) (impl : String) : Verdict :=
+  match handleCodec toks impl with
+  | some v => v
+  | none =>
   match toks with
   | ["crlx", entries, probes] => handleCrl entries probes impl
   | op :: _ =>
